@@ -20,6 +20,7 @@ import (
 	"errors"
 	"net/url"
 	"regexp"
+	"strconv"
 	"strings"
 	"sync/atomic"
 	"time"
@@ -78,7 +79,11 @@ func (s *AccessSigner) prepareData(label string, req *bfe_basic.Request) ([]byte
 		if len(subStrs) == 0 {
 			return nil, errors.New("not matched url")
 		}
-		buildKeyValue(&buf, "urlpattern", strings.Join(subStrs[1:], ","))
+		// one field per submatch: joining them with "," would make
+		// ("a,b", "c") and ("a", "b,c") the same signature
+		for _, subStr := range subStrs[1:] {
+			buildKeyValue(&buf, "urlpattern", subStr)
+		}
 	}
 	// request header
 	if len(s.Header) != 0 {
@@ -126,27 +131,40 @@ func (s *AccessSigner) prepareData(label string, req *bfe_basic.Request) ([]byte
 	return buf.Bytes(), nil
 }
 
+// buildKeyValue appends one field to the raw data of a signature.
+//
+// Key and value are written with their length in front (&<len>:key=<len>:val):
+// values come from the request and may contain any byte, including "&" and
+// "=". Without the lengths the raw data of (k1="a&k2=b", k2="c") and of
+// (k1="a", k2="b&k2=c") is the same text, i.e. two different accesses get the
+// same signature and are counted (and blocked) as one.
 func buildKeyValue(dst *bytes.Buffer, key string, val string) {
 	dst.WriteString("&")
+	dst.WriteString(strconv.Itoa(len(key)))
+	dst.WriteString(":")
 	dst.WriteString(key)
 	dst.WriteString("=")
+	dst.WriteString(strconv.Itoa(len(val)))
+	dst.WriteString(":")
 	dst.WriteString(val)
 }
 
 // buildQueryValues builds value from equivalent querys (separate by |, eg q1|q2)
 func buildQueryValues(dst *bytes.Buffer, query url.Values, keys string) bool {
-	// Note: output format &q1|q2=v1v2 (instead of &q1=v1&q2=v2)
+	// Note: output format &q1|q2=v1v2 (instead of &q1=v1&q2=v2); every value
+	// is written with its length in front (see buildKeyValue)
 	existQuery := false
-	dst.WriteString("&")
-	dst.WriteString(keys)
-	dst.WriteString("=")
+	var vals bytes.Buffer
 	keyList := strings.Split(keys, "|")
 	for _, key := range keyList {
 		if val := query.Get(key); len(val) > 0 {
-			dst.WriteString(val)
+			vals.WriteString(strconv.Itoa(len(val)))
+			vals.WriteString(":")
+			vals.WriteString(val)
 			existQuery = true
 		}
 	}
+	buildKeyValue(dst, keys, vals.String())
 	return existQuery
 }
 
